@@ -39,6 +39,65 @@ class Unsupported(Exception):
     pass
 
 
+def norm_value(v):
+    """canonical, dtype-free encoding of a cell / argument / default (shared by translator, harness and Coq cases):
+    missing (None / NaN) -> null, bools -> true / false, integral numbers -> the integer, other floats -> repr,
+    strings -> s:<text>"""
+    import math
+    if v is None:
+        return "null"
+    t = type(v).__name__
+    if isinstance(v, bool) or t in ("bool_", "bool"):
+        return "true" if bool(v) else "false"
+    if isinstance(v, int) or "int" in t:
+        return str(int(v))
+    if isinstance(v, float) or "float" in t:
+        f = float(v)
+        if math.isnan(f):
+            return "null"
+        if math.isinf(f):
+            return "inf" if f > 0 else "-inf"
+        return str(int(f)) if f.is_integer() and abs(f) < 1e15 else repr(f)
+    if isinstance(v, str):
+        return "s:" + v
+    raise Unsupported("value %r has no canonical encoding" % (v,))
+
+
+def norm_default(rep):
+    if rep == REQUIRED:
+        return None
+    if rep == "np.inf":
+        return "inf"
+    return norm_value(ast.literal_eval(rep))
+
+
+def reassigned_params(fn, names):
+    """parameters that are assigned in the body (the column then holds a derived value), except inside
+    `if <...kwargs...>:` blocks (deprecated keywords the harness never passes)"""
+    out = set()
+
+    def visit(stmts, in_kw):
+        for st in stmts:
+            if isinstance(st, (ast.Assign, ast.AugAssign, ast.AnnAssign)):
+                targets = st.targets if isinstance(st, ast.Assign) else [st.target]
+                for t in targets:
+                    for n in ast.walk(t):
+                        if isinstance(n, ast.Name) and n.id in names and isinstance(t, (ast.Name, ast.Tuple)) and not in_kw:
+                            out.add(n.id)
+            elif isinstance(st, ast.If):
+                kw = in_kw or "kwargs" in ast.unparse(st.test)
+                visit(st.body, kw)
+                visit(st.orelse, in_kw)
+            elif isinstance(st, (ast.For, ast.While, ast.With, ast.Try)):
+                for fld in ("body", "orelse", "finalbody"):
+                    visit(getattr(st, fld, []), in_kw)
+                for n in ast.walk(st.target) if isinstance(st, ast.For) else []:
+                    if isinstance(n, ast.Name) and n.id in names:
+                        out.add(n.id)
+    visit(fn.body, False)
+    return out
+
+
 def _root_name(node):
     while isinstance(node, (ast.Subscript, ast.Attribute, ast.Call)):
         node = node.value if not isinstance(node, ast.Call) else node.func
@@ -329,11 +388,37 @@ def analyse_function(fn):
         if isinstance(st, ast.If) and any(e[1] >= st.lineno and e[1] <= st.end_lineno for e in late_raise + late_write):
             continue        # already counted as late raise / late write
         late_code.append("line %d: %s" % (st.lineno, ast.unparse(st).split("\n")[0][:60]))
+    # value columns: which argument (or constant) lands in which column
+    reassigned = reassigned_params(fn, {p for p, _ in params})
+    colsrc = []
+    for col, src in cols:
+        if src[0] in ("param", "bool"):
+            if src[1] not in [p for p, _ in params]:
+                kind = ("derived",)                      # a local (index, type inferred ...) - not an argument
+            elif src[1] in reassigned or (eg and src[1] == eg["type"]):
+                kind = ("derived",)
+            else:
+                kind = ("param" if src[0] == "param" else "bool", src[1])
+        elif src[0] == "none":
+            kind = ("none",)
+        else:
+            kind = ("derived",)
+        colsrc.append((col, kind))
+    # is the geodata argument evaluated by a call / subscript before the row write (then malformed geodata is an
+    # ordinary early rejection), or only afterwards (then it is a late failure)?
+    geodata_early = False
+    for st in ast.walk(fn):
+        node = st.value if isinstance(st, ast.Assign) else st
+        if isinstance(st, (ast.Call, ast.Subscript, ast.Assign)) and getattr(st, "lineno", 10 ** 9) < row_line and \
+                any(isinstance(n, ast.Name) and n.id == "geodata" for n in ast.walk(node)) and \
+                not (isinstance(st, ast.Call) and _call_name(st) in ("isinstance", "hasattr")):
+            geodata_early = True
     # bulk junctions have no per-row list: is the length of a passed index compared with nr_junctions before writing?
     index_len_check = any(isinstance(n, ast.Compare) and n.lineno < first_write and "len(index)" in ast.unparse(n)
                           and "nr_junctions" in ast.unparse(n) for n in ast.walk(fn))
     return {"fn": fn.name, "table": table, "bulk": bulk, "params": params, "kwargs": has_kwargs,
-            "index_len_check": index_len_check,
+            "index_len_check": index_len_check, "geodata_early": geodata_early, "colsrc": colsrc, "reassigned": sorted(reassigned),
+            "ndefaults": [(p, norm_default(d)) for p, d in params if norm_default(d) is not None],
             "columns": [(c, s) for c, s in cols], "refcols": refcols, "std": std, "eg": eg,
             "late_raise": [e[2] for e in late_raise], "late_write": [e[2] for e in late_write], "pre_write": [e[2] for e in pre_write],
             "late_check": [e[2] for e in late_check], "late_code": late_code, "silent_return": [e[2] for e in silent],
@@ -377,10 +462,15 @@ def coq_schema(s):
                 for r in s["refcols"]])
     std = "None" if s["std"] is None else "(Some (%s, %s))" % (cstr(s["std"]["table"]), cbool(s["std"]["checked"]))
     late = bool(s["late_raise"] or s["late_write"] or s["late_check"] or s["late_code"])
+    def csrc(k):
+        return {"param": "FromParam %s", "bool": "BoolOf %s"}[k[0]] % cstr(k[1]) if k[0] in ("param", "bool") else \
+            ("ConstNone" if k[0] == "none" else "Derived")
     return ("{| s_fn := %s; s_table := %s; s_bulk := %s; s_refcols := %s; s_std := %s; s_eg := %s; s_late := %s;\n"
-            "     s_defaults := %s |}" %
+            "     s_defaults := %s;\n     s_cols := %s;\n     s_ndefaults := %s |}" %
             (cstr(s["fn"]), cstr(s["table"]), cbool(s["bulk"]), rc, std, cbool(s["eg"] is not None), cbool(late),
-             clist(["(%s, %s)" % (cstr(singular(p)), cstr(d)) for p, d in s["params"] if p != "nr_junctions"])))
+             clist(["(%s, %s)" % (cstr(singular(p)), cstr(d)) for p, d in s["params"] if p != "nr_junctions"]),
+             clist(["(%s, %s)" % (cstr(c), csrc(k)) for c, k in s["colsrc"]]),
+             clist(["(%s, %s)" % (cstr(p), cstr(d)) for p, d in s["ndefaults"]])))
 
 
 def generate(path=None):
